@@ -33,6 +33,9 @@ EXC = {"ValueError": ".value", "EOFError": ".eof", "OverflowError": ".overflow",
        "TypeError": ".type", "KeyError": ".key", "AttributeError": ".attr", "AssertionError": ".assertion"}
 
 LEAN_TY = {"int": "Int", "bytes": "Bytes", "bool": "Bool", "stream": "Bytes", "none": "Unit", "pfields": "(List PField)", "pfield": "PField", "ptype": "PType"}
+# types of a THREADED parameter (a mutable object the function changes: its state is passed in and handed back);
+# other translators (extract_srcimp.py: the `imports` set) register theirs here and in LEAN_TY
+STREAM_TYS = {"stream"}
 # module-level collections of proto types: regenerated as Gen.* by harness/extract.py (WireTables.lean)
 TYPE_TABLES = {"WIRE_VARINT_TYPES": "Gen.wireVarintTypes", "WIRE_FIXED_32_TYPES": "Gen.wireFixed32Types",
                "WIRE_FIXED_64_TYPES": "Gen.wireFixed64Types", "WIRE_LEN_DELIM_TYPES": "Gen.wireLenDelimTypes",
@@ -53,15 +56,16 @@ def nm(s):
 
 
 class Sig:
-    def __init__(self, name, params, ret, stream):
+    def __init__(self, name, params, ret, stream, stream_ty="stream"):
         self.name, self.params, self.ret, self.stream = name, params, ret, stream  # params: [(name, type, default_src)]
+        self.stream_ty = stream_ty      # type (key of LEAN_TY) of the threaded parameter `stream`
 
     def lean_ret(self):
         if self.stream is None:
             return lty(self.ret)
         if self.ret == "none":
-            return "Bytes"
-        return "(%s × Bytes)" % lty(self.ret)
+            return lty(self.stream_ty)
+        return "(%s × %s)" % (lty(self.ret), lty(self.stream_ty))
 
 
 def ann_type(a):
@@ -286,9 +290,9 @@ class Tr:
                     else:
                         raise Unsupported("missing argument %s of %s" % (pn, f.id))
                     b, t, ty = self.expr(a, env)
-                    if (ty == "stream") != (pt == "stream") or (pt != "stream" and ty != pt):
+                    if (ty in STREAM_TYS) != (pt in STREAM_TYS) or ty != pt:
                         raise Unsupported("argument %s of %s has type %s, expected %s" % (pn, f.id, ty, pt))
-                    if pt == "stream":
+                    if pt in STREAM_TYS:
                         if not isinstance(a, ast.Name):
                             raise Unsupported("stream argument must be a variable")
                         stream_arg = nm(a.id)
@@ -345,7 +349,7 @@ class Tr:
                 if isinstance(n.func, ast.Attribute) and isinstance(n.func.value, ast.Name) and n.func.attr in ("read", "write", "seek"):
                     names.add(n.func.value.id)
                 if isinstance(n.func, ast.Name) and n.func.id in self.sigs and self.sigs[n.func.id].stream is not None:
-                    idx = [i for i, p in enumerate(self.sigs[n.func.id].params) if p[1] == "stream"][0]
+                    idx = [i for i, p in enumerate(self.sigs[n.func.id].params) if p[1] in STREAM_TYS][0]
                     if idx < len(n.args) and isinstance(n.args[idx], ast.Name):
                         names.add(n.args[idx].id)
                 s.generic_visit(n)
